@@ -35,6 +35,20 @@ impl SendFrame<StreamCtlFrame> for Sink {
     }
 }
 
+/// The DataStreams under test holds NO streams (ArcInput::default(): empty map), so a lookup in the
+/// receiving-side map finds nothing. Stating that directly (instead of letting CBMC derive it
+/// through Arc<Mutex<Result<HashMap<..>>>>) keeps the never-taken bodies `incoming.recv_reset(..)`,
+/// `incoming.recv_data(..)` and the drop glue of `(Incoming, IOState)` (RecvBuf segments, io::Error)
+/// out of the query: without these two stubs one delivery does not finish in 20 min.
+fn stub_map_remove_none<K: PartialEq, V>(m: &mut verif_model::HashMap<K, V>, _k: &K) -> Option<V> {
+    assert!(m.len() == 0, "the stub is only exact on an empty map");
+    None
+}
+fn stub_map_get_none<'a, K: PartialEq, V>(m: &'a verif_model::HashMap<K, V>, _k: &K) -> Option<&'a V> {
+    assert!(m.len() == 0, "the stub is only exact on an empty map");
+    None
+}
+
 fn stub_fmt(_args: core::fmt::Arguments<'_>) -> String {
     String::new()
 }
@@ -124,6 +138,8 @@ macro_rules! c04_stream_harness {
         #[kani::unwind(6)]
         #[kani::stub(std::fmt::format, stub_fmt)]
         #[kani::stub(core::fmt::write, stub_write)]
+        #[kani::stub(verif_model::HashMap::remove, stub_map_remove_none)]
+        #[kani::stub(verif_model::HashMap::get, stub_map_get_none)]
         fn $name() {
             unopened::<$k>($role, $want);
         }
@@ -150,6 +166,8 @@ c04_stream_harness!(c04_streams_unopened_max_stream_data_ignored, 3, Role::Serve
 #[kani::unwind(6)]
 #[kani::stub(std::fmt::format, stub_fmt)]
 #[kani::stub(core::fmt::write, stub_write)]
+#[kani::stub(verif_model::HashMap::remove, stub_map_remove_none)]
+#[kani::stub(verif_model::HashMap::get, stub_map_get_none)]
 fn c04_streams_unopened_uni_receiver_frames_ignored() {
     assert!(deliver_local::<2>(Role::Server, Dir::Uni) == Verdict::Ignored);
     kani::cover!(true);
